@@ -28,7 +28,7 @@ def observe(test_paths, timeout=600, cap=6000, extra_args=()):
     root = repo_root()
     paths = [os.path.join(root, p) for p in test_paths if os.path.exists(os.path.join(root, p))]
     if not paths:
-        return dict(gen=[], sp=[], rc=None, summary="tests not found next to the code under test", wall=0.0, available=False)
+        return dict(gen=[], sp=[], ds=[], rc=None, summary="tests not found next to the code under test", wall=0.0, available=False)
     wd = lib.workdir("repotests_")
     obs = os.path.join(wd, "obs")
     os.makedirs(obs, exist_ok=True)
@@ -45,10 +45,10 @@ def observe(test_paths, timeout=600, cap=6000, extra_args=()):
         rc, tail = p.returncode, (p.stdout.strip().splitlines() or [""])[-1][:200]
     except subprocess.TimeoutExpired:
         rc, tail = None, "timeout"
-    out = dict(gen=[], sp=[], rc=rc, summary=tail, wall=round(time.time() - t0, 1), available=True)
+    out = dict(gen=[], sp=[], ds=[], rc=rc, summary=tail, wall=round(time.time() - t0, 1), available=True)
     for fn in sorted(os.listdir(obs)):
         kind = fn.split("_")[0]
-        if kind not in ("gen", "sp"):
+        if kind not in ("gen", "sp", "ds"):
             continue
         for line in open(os.path.join(obs, fn)):
             try:
@@ -71,5 +71,9 @@ def observe_dirs(thorough, timeout=900):
         outs = list(ex.map(lambda d: observe([d], timeout=timeout), dirs))
     gen = [r for o in outs for r in o["gen"]]
     sp = [r for o in outs for r in o["sp"]]
-    summ = {d: dict(rc=o["rc"], summary=o["summary"], wall=o["wall"], gen=len(o["gen"]), sp=len(o["sp"])) for d, o in zip(dirs, outs)}
+    summ = {d: dict(rc=o["rc"], summary=o["summary"], wall=o["wall"], gen=len(o["gen"]), sp=len(o["sp"]), ds=len(o.get("ds", []))) for d, o in zip(dirs, outs)}
+    LAST_DS[:] = [r for o in outs for r in o.get("ds", [])]
     return gen, sp, summ
+
+
+LAST_DS = []  # MazeDataset.generate results observed by the last observe_dirs() call (used by C03)
